@@ -1594,6 +1594,13 @@ class C17(Property):
         if fix_landed(FIX_ANON):
             cs.append({"kind": "shape", "type": [F("c17nodes", P("int")), ET("Nodes")], "env": None, "noload": False,
                        "doc": dm(("c17nodes", di(1))), "doc2": None})
+        # members filled from a default LIST / from the environment / from the enclosing object: two loads, two values
+        cs.append({"kind": "shape", "type": [F("tags", Sl(P("string")), O(**{"def": "[a,b]"})), F("nums", Sl(P("int")), O(opt=True, **{"def": "[1,2]"})),
+                                             F("Svc", St(F("port", P("int"), O(env="C17_TAGPORT")), F("name", P("string"), O(env="C17_TAGENV", opt=True))), O(opt=True))],
+                   "env": None, "noload": False, "doc": dm(("Svc", dm())), "doc2": dm(("SVC", dm()))})
+        cs.append({"kind": "shape", "type": [F("Host", P("string")), F("Sub", St(F("host", P("string"), O(inherit=True)), F("name", P("string"))))],
+                   "env": None, "noload": False, "doc": dm(("Host", ds("h")), ("Sub", dm(("name", ds("nm"))))),
+                   "doc2": dm(("HOST", ds("h")), ("sub", dm(("NAME", ds("nm")))))})
         if fix_landed(FIX_MBOOL):
             cs.append({"kind": "shape", "type": [F("Flags", Mp(Nm("MyBool"))), F("Names", Mp(Nm("MyStr")), O(opt=True))], "env": None,
                        "noload": False, "doc": dm(("Flags", dm(("Kk", db(True)))), ("Names", dm(("a", ds("x"))))),
